@@ -35,6 +35,7 @@ class Config:
         self.loss = False
         self.reject_all = False     # quick sampler: a post-selection that no output passes (reading the distribution must raise)
         self.rules = []             # quick sampler: rules of a PostSelection object [(mode, allowed photon numbers)]
+        self.threshold = 1e-9       # lw.settings.sampler_probability_threshold (package-wide setting used when the distribution is computed)
 
     @property
     def valid(self):
@@ -74,6 +75,7 @@ STEPS = {
     "backend": lambda cfg: setattr(cfg, "backend", "slos" if cfg.backend == "permanent" else "permanent"),
     "loss": lambda cfg: setattr(cfg, "loss", not cfg.loss),
     # reconfigurations after which reading must FAIL (on a fresh object too): a failed recalculation must not leave the cache looking up to date
+    "global-threshold": lambda cfg: setattr(cfg, "threshold", 5e-3 if cfg.threshold == 1e-9 else 1e-9),
     "bad-input": lambda cfg: setattr(cfg, "input", [1, 0, 1, 1, 0]),
     "reject-all": lambda cfg: setattr(cfg, "reject_all", not cfg.reject_all),
     # post-selection given as a PostSelection OBJECT: assigned, then extended IN PLACE with another rule (a change of post-selection like any other)
@@ -94,7 +96,9 @@ def apply_live(obj, cfg, step, kind):
     """apply the same change to the long-lived object through its public API (in place where the API allows)"""
     from lightworks import emulator
     import lightworks as lw
-    if step == "param":
+    if step == "global-threshold":
+        lw.settings.sampler_probability_threshold = cfg.threshold
+    elif step == "param":
         cfg.p_live.set(cfg.param)
     elif step == "edit-circuit":
         obj.circuit.ps(1, 0.5 + cfg.extra_ps - 1)
@@ -198,6 +202,16 @@ def compare_reads(a, b, valid=True):
 
 
 def run_history(kind, steps, first_read):
+    import lightworks as lw
+    old = lw.settings.sampler_probability_threshold
+    try:
+        lw.settings.sampler_probability_threshold = 1e-9
+        return _run_history(kind, steps, first_read)
+    finally:
+        lw.settings.sampler_probability_threshold = old
+
+
+def _run_history(kind, steps, first_read):
     cfg = Config()
     live = fresh(cfg, kind)
     cfg.p_live = cfg.p
@@ -232,7 +246,7 @@ def run_history(kind, steps, first_read):
 
 def histories(tier, kind):
     steps = ([s_ for s_ in STEPS if s_ not in ("reject-all", "ps-assign", "ps-add-rule")] if kind == "sampler" else
-             ["new-unitary", "edit-circuit", "param", "input", "herald-photons", "herald-mode", "herald-both", "herald-swap", "loss", "bad-input", "reject-all", "ps-assign", "ps-add-rule"])
+             ["new-unitary", "edit-circuit", "param", "input", "herald-photons", "herald-mode", "herald-both", "herald-swap", "loss", "global-threshold", "bad-input", "reject-all", "ps-assign", "ps-add-rule"])
     out = [()]
     out += [(s,) for s in steps]
     out += list(itertools.permutations(steps, 2))
